@@ -3,7 +3,9 @@ import os, json
 import vf
 
 PROP = "C06"
-THEOREMS = ["root_injective_refuted", "acc_agrees_refuted"]
+THEOREMS = ["reach_bfs_sound_complete", "root_layout_free", "root_layout_free_sem", "root_injective_refuted",
+            "root_injective_same_skeleton_partial", "root_single_mutation_partial", "root_preimage_is_content_encoding",
+            "acc_agrees_refuted"]
 PRE = ("From Coq Require Import List NArith.\nFrom Echo Require Import Base.FinMap Base.Order Base.Bytes Model.Root.\n"
        "Import ListNotations.\nOpen Scope N_scope.\n")
 M256 = (1 << 256) - 1
